@@ -107,6 +107,9 @@ def cases(draw):
     how = draw(st.sampled_from(["ref", "fiber", "uncompressed", "yaml", "deepcopy", "unowned", "unowned"]))
     c = {"spec": spec, "depth": depth, "how": how, "req": draw(split_req(shape[depth])), "active": None,
          "req2": None}
+    # a tensor whose shape was never declared and that has grown since it was built: "the shape" a split works with
+    # is the extent of the rank's fibers as they are now
+    c["grown"] = how != "unowned" and draw(st.integers(0, 3)) == 0
     if how == "unowned":
         c["depth"] = 0
         c["req"] = draw(split_req(shape[0]))
@@ -288,9 +291,24 @@ def check(case, rec):
     # ---- tensor level: content oracle per fiber of the rank
     depth = case["depth"]
     t = build.build_tensor(spec, case["how"])
+    S = shape[depth]
+    if case.get("grown") and len(spec["tree"]) >= 2:
+        ext = [0] * d
+
+        def extent(tr, lvl):
+            for c, ch in tr:
+                ext[lvl] = max(ext[lvl], c + 1)
+                if lvl < d - 1:
+                    extent(ch, lvl + 1)
+        extent(spec["tree"], 0)
+        if all(ext):
+            k = len(spec["tree"]) // 2
+            t = build.build_tensor(dict(spec, tree=spec["tree"][:k], auth=False), "fiber" if k else "ref")
+            build._populate(t, spec["tree"][k:], d)
+            S = ext[depth]
+            rec.cls("grown-undeclared")
     snap0, ranks0 = observe.snap(t.getRoot()), observe.rank_lists(t)
     cont = model.content(spec)
-    S = shape[depth]
 
     def expected(cont, req, depth, act_of):
         """content of the split result; act_of(prefix) -> (a0, a1) of the fiber at `depth` under prefix"""
